@@ -18,7 +18,7 @@ bash seeded/run.sh >/tmp/mut-$ID-without.log 2>&1; R0=$?
 git apply seeded/patch.diff; make >/dev/null 2>&1
 echo "tests_pass_with_patch=$T1 demo_rc_with_patch=$R1 demo_rc_without_patch=$R0"
 mkdir -p /verif/seeded/$ID; cp seeded/patch.diff seeded/meta.json seeded/run.sh /verif/seeded/$ID/ 2>/dev/null; cp seeded/demo.* /verif/seeded/$ID/ 2>/dev/null
-cd /verif
+cd ${EVAL_VERIF:-/verif}   # (EVAL_VERIF: a frozen copy of /verif to run the checks from, so that /verif can be edited meanwhile)
 RES="/verif/seeded/$ID/verif_result.json"
 echo "{\"id\": \"$ID\", \"confirmed_in_scratch_worktree\": {\"suite_341_pass_with_change\": $T1, \"demo_exit_with_change\": $R1, \"demo_exit_without_change\": $R0}, \"checks\": [" > $RES
 FIRST=1
